@@ -216,6 +216,8 @@ class Program:
                 self.normalisation["canonicalised"] = canonicalise(self)
                 self.inlining = inline_new_helpers(self)
                 self.normalisation["inlining"] = self.inlining
+                if self.inlining.get("inlined_calls"):
+                    self.normalisation["canonicalised"] += canonicalise(self)
             except RecursionError:
                 self.inlining = {"enabled": False, "error": "recursion"}
 
